@@ -277,12 +277,27 @@ def run(index, tier="quick", seed=0) -> Result:
                 res.ok("CT-2", k, sample={"ctor": label, "test": req})
         # CT-4 reorder on accept path
         if cls.name in ("ConvexPolygon", "ConvexSpheropolygon"):
-            called = [e for e in r["events"] if e.type == "enter" and not e.entry and e.callee.name == "_reorder_verts"]
-            # must be called on every normal path: use MustWritten-like argument: _reorder_verts rebinds _vertices
-            if called:
+            # decided on what happens to the vertex array, not on the name of a helper: the constructor sorts by the polar
+            # angle about the normal (an argsort / lexsort with an arctan2-derived key) and then stores a row selection of
+            # `_vertices` back into `_vertices`
+            def _self_rows(e_):
+                return e_.type == "write" and e_.loc[1] == "_vertices" and e_.f.get("rhs") is not None and any(
+                    isinstance(t_, tuple) and t_ and t_[0] in ("copy-of", "reorder-of", "reverse-of") and any(
+                        isinstance(l_, tuple) and l_[-1] == "_vertices" for l_ in (t_[1] if isinstance(t_[1], tuple) else ())) for t_ in e_.rhs.tags)
+            stores = [e for e in r["events"] if _self_rows(e)]
+
+            def _angle_key(e_):
+                t_ = e_.f.get("target")
+                vs_ = [t_] + list(t_.items or ()) if t_ is not None else []
+                return any(v_ is not None and "polar-angle" in v_.tags for v_ in vs_)
+            sorts = [e for e in r["events"] if e.type == "reorder" and e.f.get("fn") in ("lexsort", "argsort", "sort") and _angle_key(e)]
+            if stores and sorts and any(s_.time < w_.time for s_ in sorts for w_ in stores):
                 res.ok("CT-4", label)
+            elif not stores:
+                res.bad("CT-4", label, f"{init.file}:{init.lineno}", f"{label} never orders the vertices counter-clockwise: no accepted path stores a "
+                        "reordering of the vertex array back into `_vertices`")
             else:
-                res.bad("CT-4", label, f"{init.file}:{init.lineno}", f"{label} never orders the vertices counter-clockwise (_reorder_verts)")
+                raise AnalysisError(f"CT-4: {label} reorders its vertices in a way the analysis does not recognise (no sort by a polar angle)")
         # ---------------------------------------------------------------- CT-3 exception types
         excs = {}
         for (exc, sigs, ev) in tp.raises:
